@@ -54,6 +54,9 @@ PAIRS = [
     ('/a/b', '/a/b', False, None), ('/a', '/a/b', False, None),
     ('/x/y', '/a', False, None), ('/ab', '/a', False, None),
     ('/a/b', '/', True, 'a'), ('/a', '/', True, 'a'), ('/', '/', False, None),
+    # the queried path occurs INSIDE the exported one, not at its start
+    ('/a/b/c', '/b', False, None), ('/x/a/b', '/a', False, None),
+    ('/x/a', '/a', False, None),
 ]
 
 
